@@ -32,7 +32,9 @@ Drivers == {Impulse(t0, l0, v) : t0 \in 1..N, l0 \in Labs, v \in {1, -2}} \cup {
 \* a second array for the flow-driven class
 OutflowOf(d) == [t \in 1..N |-> [lab \in Labs |-> (d[t][lab] * 2 + t) % 3]]
 
-Classes == {"flow", "inflow"} \cup (IF Solvable THEN {"stock"} ELSE {})
+\* the stock-driven class needs a non-zero diagonal; labels without one are left unspecified (RNaN) -
+\* but they must not disturb the other labels (C16)
+Classes == {"flow", "inflow"} \cup (IF \E lab \in Labs : SolvableLab(lab) THEN {"stock"} ELSE {})
 Init == /\ cfg \in {[cls |-> c, driver |-> d] : c \in Classes, d \in Drivers}
         /\ res = [pending |-> TRUE] /\ phase = "cfg"
 
@@ -55,11 +57,13 @@ Compute(c) ==
       [] c.cls = "stock" ->
             \* the prescribed stock is the one an inflow-driven model computes from d
             LET st  == Tab1(LAMBDA t, lab : IStock(d, t, lab))
-                rin == Tab1(LAMBDA t, lab : SInflow(st, t, lab))
+                rin == Tab1(LAMBDA t, lab : IF SolvableLab(lab) THEN SInflow(st, t, lab) ELSE RNaN)
+                Gd1(f(_, _)) == Tab1(LAMBDA t, lab : IF SolvableLab(lab) THEN f(t, lab) ELSE RNaN)
+                Gd2(f(_, _, _)) == Tab2(LAMBDA t, cc, lab : IF SolvableLab(lab) THEN f(t, cc, lab) ELSE RNaN)
             IN  [stock |-> st, inflow |-> rin,
-                 outflow |-> Tab1(LAMBDA t, lab : ROutflow(rin, t, lab)),
-                 sbc |-> Tab2(LAMBDA t, cc, lab : RSbc(rin, t, cc, lab)),
-                 obc |-> Tab2(LAMBDA t, cc, lab : RObc(rin, t, cc, lab))]
+                 outflow |-> Gd1(LAMBDA t, lab : ROutflow(rin, t, lab)),
+                 sbc |-> Gd2(LAMBDA t, cc, lab : RSbc(rin, t, cc, lab)),
+                 obc |-> Gd2(LAMBDA t, cc, lab : RObc(rin, t, cc, lab))]
 
 Step == phase = "cfg" /\ phase' = "done" /\ res' = Compute(cfg) /\ UNCHANGED cfg
 Spec == Init /\ [][Step]_vars
@@ -78,11 +82,14 @@ EmitInv == (Emit /\ Done) =>
 ASSUME Prop_C08_TableValid == TableValid          \* the exact tables are valid survival tables
 ASSUME Prop_C16_Shift == ShiftInvariantDef(1990) /\ ShiftInvariantDef(-7)
 
-Prop_C03 == Done => Conserves(res.stock, res.inflow, res.outflow)
+OkLab(lab) == cfg.cls # "stock" \/ SolvableLab(lab)
+Prop_C03 == Done => \A t \in 1..N, lab \in Labs : OkLab(lab) =>
+    RSub(res.stock[t][lab], IF t = 1 THEN RInt(0) ELSE res.stock[t - 1][lab])
+       = RMul(DtR(t), RSub(res.inflow[t][lab], res.outflow[t][lab]))
 
 Prop_C09 ==
     (Done /\ cfg.cls # "flow") =>
-      \A lab \in Labs :
+      \A lab \in {l \in Labs : OkLab(l)} :
         /\ \A t \in 1..N :
               /\ res.stock[t][lab] = RSumOver(LAMBDA c : res.sbc[t][c][lab], 1..N)
               /\ res.outflow[t][lab] = RSumOver(LAMBDA c : res.obc[t][c][lab], 1..N)
@@ -99,7 +106,7 @@ Prop_C09 ==
 \* stock-driven is the inverse of inflow-driven
 Prop_C10 ==
     (Done /\ cfg.cls = "stock") =>
-      \A t \in 1..N, lab \in Labs :
+      \A t \in 1..N, lab \in {l \in Labs : SolvableLab(l)} :
         /\ res.inflow[t][lab] = RInt(cfg.driver[t][lab])
         /\ res.outflow[t][lab] = IOutflow(cfg.driver, t, lab)
         /\ RStockOf(res.inflow, t, lab) = res.stock[t][lab]
